@@ -137,8 +137,10 @@ Section Lts2.
     | TRerun i =>
         match nth_error (t_queries s) i with
         | Some q => match q_phase q with
-                    | PDone => Some (with_queries s (update_nth i (fun q => mk_q (q_table q) (q_filter q) PIdle false 0 []) (t_queries s)))
-                    | _ => None
+                    | PIdle => None
+                    | _ =>   (* a completed run is re-run, a run that has registered but not read yet is abandoned (the
+                                rerunner cancels a computation whose dependency was invalidated at any point) *)
+                        Some (with_queries s (update_nth i (fun q => mk_q (q_table q) (q_filter q) PIdle false 0 []) (t_queries s)))
                     end
         | None => None
         end
